@@ -318,6 +318,10 @@ func runScenarioIn(t *testing.T, sc *Scenario, h *History) {
 				ch.Stub = sh
 				stubClass := 10 + 4*i + 3
 				offer = func(net.Conn) bool {
+					if cs.Stub.LMTP != nil {
+						go runLMTPStub(srvEnd, cs.Stub, sh)
+						return true
+					}
 					go runStub(srvEnd, cs.Stub, sh, srvTLS, stubClass)
 					return true
 				}
